@@ -238,6 +238,28 @@ theorem serialize_layers_outermost_first (b : SBuf) (l : Ser) (rest : List Ser) 
   refine ⟨b', h1, h4, ?_⟩
   rw [h3]; simp
 
+/-- The observable run of SerializeLayers has the same result as the plain one. -/
+theorem serialize_layers_obs_agrees (b : SBuf) (ls : List Ser) :
+    (match serializeLayersObs b ls with
+     | (.ok (), b', _) => Res.ok b'
+     | (.err e, _, _) => .err e
+     | (.panic k, _, _) => .panic k) = serializeLayers b ls :=
+  goObs_agrees (clear b) [] ls.reverse
+
+/-- **Recorded layers are exactly the layers already serialized**, at every moment and also on failure.
+    For ANY serializers (failing ones included) and any buffer: with `n` the number of serializers that
+    ran successfully (innermost first), every serializer that was called found, in `Layers()`, exactly
+    the types of the serializers inside it — never its own; what SerializeLayers leaves recorded is
+    exactly those `n` types (the failing serializer is not recorded); the result is ok iff all ran. -/
+theorem serialize_layers_records_serialized (b : SBuf) (ls : List Ser) :
+    ∃ n, n ≤ ls.length ∧
+      (serializeLayersObs b ls).2.2 = (List.range (min (n + 1) ls.length)).map
+          (fun i => (ls.reverse.take i).map (·.typ)) ∧
+      (serializeLayersObs b ls).2.1.layers = (ls.reverse.take n).map (·.typ) ∧
+      ((serializeLayersObs b ls).1 = .ok () ↔ n = ls.length) := by
+  have h := goObs_spec ls.reverse [] (clear b) [] rfl
+  simpa [serializeLayersObs] using h
+
 /-! ## 10. Non-vacuity -/
 
 /-- A reachable state after two reallocations and a clear, with non-empty contents. -/
@@ -266,6 +288,16 @@ example :
      | .ok b' => some (contents b', b'.layers)
      | _ => none) = some ([0xE0, 5, 0x45, 3, 0xAA, 0xBB, 0xCC], [3, 2, 1]) := by
   refine ⟨⟨rfl, rfl, rfl, trivial⟩, by decide, by decide⟩
+
+/-- Observations of a three-layer stack whose middle serializer fails: the innermost ran and is the only
+    one recorded, the failing one saw `[3]` (not itself), the outermost was never called. -/
+example :
+    let eth : Ser := { typ := 1, hdr := fun _ => [0xE0], ok := fun _ => true }
+    let bad : Ser := { typ := 2, hdr := fun _ => [0x45], ok := fun _ => false }
+    let pay : Ser := { typ := 3, hdr := fun _ => [0xAA], ok := fun _ => true }
+    (serializeLayersObs (new 0 0) [eth, bad, pay]).1 = .err "serialize" ∧
+    (serializeLayersObs (new 0 0) [eth, bad, pay]).2.1.layers = [3] ∧
+    (serializeLayersObs (new 0 0) [eth, bad, pay]).2.2 = [[], [3]] := by decide
 
 /-- ... and so is the failure case. -/
 example :
